@@ -41,22 +41,30 @@ FAMILIES = {
     "gen": {
         "driver": "core", "monitor": "MonTrace",
         "exhaustive": {
-            "quick": [mc("MCGenQ", "1 vBucket, seqnos <=2, all kinds x key classes x old, bad events, rollback, 1 crash")],
-            "thorough": [mc("MCGen", "1 vBucket, seqnos <=3, all kinds x key classes x old, bad events, rollback, 1 crash", 5000)],
+            "quick": [mc("MCGenQ", "1 vBucket, seqnos <=2, all kinds x key classes x old, bad events, rollback, 1 crash"),
+                      mc("MCReopenQ", "1 vBucket, seqnos <=3, a fail-over while streaming: transient end, re-open answered ROLLBACK(r), history "
+                                      "above r discarded and re-generated with new snapshots, 1 ack")],
+            "thorough": [mc("MCGen", "1 vBucket, seqnos <=3, all kinds x key classes x old, bad events, rollback, 1 crash", 5000),
+                         mc("MCReopen", "1 vBucket, seqnos <=3, 2 transient ends (fail-over, socket), re-open answered ok / ROLLBACK(r) with "
+                                        "the history above r discarded, mut + seqno-advanced, 1 save, 1 ack", 5000)],
         },
-        "simulate": {"quick": [sim("SimGen", 150, 36)], "thorough": [sim("SimGen", 2500, 44), sim("SimGen2", 1200, 44)]},
-        "scenarios": [scen("WitReplayGen", "gen.ndjson"), scen("WitReplayGen", "wit_gen.ndjson")],
+        "simulate": {"quick": [sim("SimGen", 150, 36), sim("SimReopen", 40, 44)],
+                     "thorough": [sim("SimGen", 2500, 44), sim("SimGen2", 1200, 44), sim("SimReopen", 800, 50)]},
+        "scenarios": [scen("WitReplayGen", "gen.ndjson"), scen("WitReplayGen", "wit_gen.ndjson"), scen("WitReplayReopen", "wit_reopen.ndjson")],
     },
     # Core.tla, lifecycle: notifications from bus / API / timer, close, re-open, stream ends, Close()
     "life": {
         "driver": "core", "monitor": "MonTrace",
         "exhaustive": {
-            "quick": [mc("MCLifeQ", "2 vBuckets, <=1 notification, 1 end, Close(), auto checkpoint, 1 event")],
+            "quick": [mc("MCLifeQ", "2 vBuckets, <=1 notification, 1 end, Close(), auto checkpoint, 1 event"),
+                      mc("MCLifeFQ", "1 vBucket, Close() with saves that fail: the final save behind / is a failing save, 1 save, 1 ack")],
             "thorough": [mc("MCLife", "2 vBuckets, <=2 notifications (bus+api), 2 ends, Close(), 1 save, 1 ack", 5000)],
         },
-        "simulate": {"quick": [sim("SimLife", 60, 45, isolate=True)], "thorough": [sim("SimLife", 800, 55, isolate=True)]},
+        "simulate": {"quick": [sim("SimLife", 60, 45, isolate=True), sim("SimLifeF", 25, 40, isolate=True)],
+                     "thorough": [sim("SimLife", 800, 55, isolate=True), sim("SimLifeF", 400, 44, isolate=True)]},
         "scenarios": [scen("ReplayLife", "life.ndjson", isolate=True), scen("ReplayLifeGaps", "life_gaps.ndjson", isolate=True, gaps=True),
-                      scen("WitReplayLife", "wit_life.ndjson", isolate=True), scen("WitReplayLife1", "wit_life1.ndjson", isolate=True)],
+                      scen("WitReplayLife", "wit_life.ndjson", isolate=True), scen("WitReplayLife1", "wit_life1.ndjson", isolate=True),
+                      scen("WitReplayLifeF", "wit_lifef.ndjson", isolate=True)],
     },
     # Core.tla, start-up faults: failing load / seqno / failover-log queries, failing stream open, checkpoint ahead
     "fault": {
@@ -122,7 +130,7 @@ PROPS = {
     "C18": {"custom": "funcheck"},
     "C20": {"custom": "funcheck"},
     "C02": {"families": ["mode", "fault", "data", "ro"], "extra": "wirecheck"},
-    "C01": {"families": ["data", "gen"]},
+    "C01": {"families": ["data", "gen"], "extra": "wirecheck"},
     "C03": {"families": ["gen", "life"]},
     "C04": {"families": ["data", "gen", "life"]},
     "C05": {"families": ["data", "life"]},
